@@ -102,7 +102,7 @@ def main():
         ],
         "checks": checks,
         "not_applicable": na,
-        "notes": "All checks are exploration-level property-based tests (see DESIGN.md). Known findings: KNOWN_FINDINGS.txt (currently none open; 13 fixed: lines, repaired by 10 fix: commits in /repo plus one follow-up). Seeded breakages and which check catches them: seeded/ and DESIGN.md section 7.",
+        "notes": "All checks are exploration-level property-based tests (see DESIGN.md). Known findings: KNOWN_FINDINGS.txt (currently none open; 13 fixed: lines, repaired by 10 fix: commits in /repo plus one follow-up). Seeded breakages and which check catches them: seeded/ and DESIGN.md section 7 (164 sub-agent changes, 129 mutants); property-preserving changes on which every check stays silent: benign/ and DESIGN.md 7.4.",
     }
     with open(os.path.join(ROOT, "MANIFEST.json"), "w") as f:
         json.dump(m, f, indent=1)
